@@ -391,6 +391,7 @@ def run(ctx):
     res.rule("S-COLLATERAL", "collateral candidates are pure-lovelace")
     res.rule("S-PREDICATE", "strategies guard their result with the covering predicates")
     res.rule("S-FABRICATE", "strategies return only UTxOs they were given")
+    res.rule("C-ORDER", "the covering predicates (contains_total, is_empty_or_negative) decide each entry as stated, for every order type of the amounts")
     res.rule("S-TRIM", "excess trimming removes one UTxO per evaluation of the excess of the current set")
     f_candidates(F, res)
     s_include(F, res)
@@ -398,6 +399,9 @@ def run(ctx):
     s_predicate(F, res)
     s_trim(F, res)
     c04.s_fabricate(F, res)
+    # the covering predicates themselves, decided over order types (shared with C15)
+    from . import c15
+    c15.c_order(F, res, rule="C-ORDER")
     if ctx.tier == "thorough":
         F2 = ctx.facts("naive")
         r2 = Result("C03")
